@@ -56,7 +56,9 @@ inductive CertBody | chainFor (k : KeyId) | unparseable
 
 inductive Body
   | directory (ok : Bool)
-  | account (hasOrders hasLocation : Bool)
+  /-- `existing`: the CA already knew the key and returned the EXISTING account unchanged
+  (RFC 8555 §7.3.1, status 200) instead of creating one; the contacts sent are then ignored. -/
+  | account (hasOrders hasLocation existing : Bool)
   | order (o : OrderBody)
   | authz (a : AuthzBody)
   | cert (c : CertBody)
@@ -98,7 +100,10 @@ def Body.certClass : Body → CertBody
 * `recKey`         : the key whose hash is stored in `key_hash` of the endpoint record.
 * `pastKeyKnown`   : `get_past_key(&ep.key_hash)` finds a key (`account.rs:143-152`).
 * `caKey`          : GHOST — the key the CA holds for this account (changes when a newAccount or
-                     keyChange exchange is answered 2xx).  Not read by the flow. -/
+                     keyChange exchange is answered 2xx).  Not read by the flow.
+* `caContactsOk`   : GHOST — the contacts the CA holds equal the configured ones (becomes true when
+                     an account is CREATED or a contact update is answered 2xx; an `existing`
+                     answer to newAccount leaves it as it is).  Not read by the flow. -/
 structure Acc where
   hasUrl         : Bool
   contactsInSync : Bool
@@ -107,6 +112,7 @@ structure Acc where
   curKey         : KeyId
   recKey         : KeyId
   caKey          : KeyId
+  caContactsOk   : Bool
   deriving DecidableEq, Repr, Inhabited
 
 def Acc.keyInSync (a : Acc) : Bool := a.recKey == a.curKey
@@ -133,10 +139,13 @@ structure Variant where
   pauseAfterFail : Bool
   /-- key roll-over before contact update (e0bc7c2) -/
   keyFirst       : Bool
+  /-- binding changed: after the re-registration a pending contact edit is still sent when the
+  key did not change (549b756) -/
+  bindingThenContacts : Bool
   deriving DecidableEq, Repr, Inhabited
 
-def Variant.current : Variant := ⟨false, true, true, true⟩
-def Variant.old : Variant := ⟨true, false, false, false⟩
+def Variant.current : Variant := ⟨false, true, true, true, true⟩
+def Variant.old : Variant := ⟨true, false, false, false, false⟩
 
 inductive ReqKind
   | directory | newAccount | accountUpdate | keyChange | newOrder
